@@ -777,6 +777,12 @@ def r_zst_drop(F, V):
                 continue
             sites += 1
             for (bb, s) in b.control_deps_trans(i, "all"):
+                if b.term(bb)["k"] == "switch":
+                    Sg = branch_sources(b, bb)
+                    if Sg.has_load("growth_left") or Sg.has_call("::capacity"):
+                        R.violation("%s|drop-gated-on-room" % p, b, "a destructor run (%s) is control dependent on growth_left / capacity(): whether elements are dropped must depend on whether there ARE elements "
+                                    "(items), not on how much free room the table has - an exactly full table would leak all of its elements" % cp, line=line_of(b, bb=i))
+                        R.inst("%s|drop-gated-on-room" % p, "destructor gated on free room", "violation", True, where(b, bb=i))
                 if zst_switch(b, bb):
                     R.violation("%s|drop-gated-on-size" % p, b, "a destructor run (%s) is control dependent on the element type being (non-)zero-sized: zero-sized types may implement Drop, "
                                 "their elements would be leaked" % cp, line=line_of(b, bb=i))
